@@ -383,6 +383,12 @@ func cmdWorker(args []string) int {
 				continue
 			}
 			seenSig[sig] = true
+			// minimising is bounded by a wall-clock budget per worker (90 s):
+			// afterwards violations are reported with their full tape, which
+			// replays just as well
+			if shrinkUntil.IsZero() {
+				shrinkUntil = time.Now().Add(90 * time.Second)
+			}
 			w.Violations = append(w.Violations, shrinkViolation(p, tier, *prop, *tierS, *seed, i, t.Values(), v, *shrinkBudget, known))
 		}
 	}
@@ -419,9 +425,16 @@ func hasSig(res *props.Result, sig string, known []finding) *props.Violation {
 	return nil
 }
 
+// shrinkUntil is the wall-clock end of this worker's minimisation budget
+// (set when the first violation is found).
+var shrinkUntil time.Time
+
 func shrinkViolation(p props.Property, tier props.Tier, prop, tierS string, seed uint64, run int, vals []uint32, v props.Violation, budget int, known []finding) replayFile {
 	sig := v.Sig()
 	min, used := tape.Shrink(vals, budget, func(c []uint32) bool {
+		if !shrinkUntil.IsZero() && time.Now().After(shrinkUntil) {
+			return false
+		}
 		res, trouble := runOne(p, tape.NewReplay(c), tier)
 		return trouble == "" && hasSig(res, sig, known) != nil
 	})
